@@ -241,9 +241,9 @@ def breach_wrappers(F, CG):
     for fn in F.raw['fns']:
         if fn['path'] in layer or fn['kind'] == 'closure':
             continue
-        if not any(b['term']['k'] == 'call' and 'fn' in b['term']['func'] and
-                   b['term']['func']['fn']['path'].startswith('lock_api::') and
-                   b['term']['func']['fn']['name'] == 'lock' for b in fn['blocks'] if not b['cleanup']):
+        if not reaches_lock(F, CG, fn):
+            continue
+        if not any(fn['path'].lstrip('<').startswith(sp.rsplit('::', 1)[0] + '::') for sp in states):
             continue
         saved = set(F.alias_fns)
         F.alias_fns.discard(fn['path'])
@@ -261,9 +261,9 @@ def breach_wrappers(F, CG):
             # that exists only in this function
             region = []
             for e in path.events:
-                if e['k'] == 'lock' and e.get('fn') == fn['path']:
+                if e['k'] == 'lock' and e.get('fn') not in layer:
                     region = []
-                elif e['k'] == 'call' and e.get('mode') == 'inline' and e.get('fn') == fn['path'] \
+                elif e['k'] == 'call' and e.get('mode') == 'inline' and CG.root_fn(e.get('fn') or '') == fn['path'] \
                         and e['callee'] in layer and (e.get('argtys') or [''])[0].startswith('&mut'):
                     region.append(e['callee'])
                     if len(region) >= 2:
@@ -426,6 +426,104 @@ def entry_contexts(F, CG):
                 out[m['path']] = ctx
     F.entry_ctx = out
     return out
+
+
+def _is_pollish(t):
+    if not t:
+        return False
+    if t.get('k') == 'adt' and t.get('path') == 'std::task::Poll':
+        return True
+    if t.get('k') == 'tuple' and t.get('tys'):
+        return _is_pollish(t['tys'][0])
+    return False
+
+
+def outcome_decoders(F, CG):
+    """Private result types of state functions.  A refactoring may let a transition return a private
+    `enum Outcome { Acquired, MustWait }` (or one with payloads) that the wrapper converts to the public `Poll<..>`.
+    The rules are written against the public shape, so the engine converts the return value of such a function the way
+    the crate itself does: (conv) through the crate's own conversion function - a function whose only parameter is the
+    outcome by value and whose result is Poll-shaped (`into_poll`) - run symbolically on the returned value; or, where
+    the wrapper matches inline, (shape) by the pairs (variant returned by the inlined transition -> Ready / Pending
+    returned by the wrapper) observed on every path of every Poll-returning function, kept only when a variant always
+    maps to the same shape.  F.outcomes = {'conv': {enum: fn path}, 'shape': {(enum, variant): (poll variant, inner)}}"""
+    if getattr(F, 'outcomes', None) is not None:
+        return F.outcomes
+    F.outcomes = {'conv': {}, 'shape': {}}
+    # private enums returned by some function of the crate
+    cand = set()
+    for fn in F.raw['fns']:
+        t = fn['locals'][0]['ty'] if fn.get('locals') else {}
+        if t.get('k') == 'adt' and t.get('local'):
+            a = F.adts.get(t['path'])
+            if a and a['kind'] == 'enum' and not a.get('reachable'):
+                cand.add(t['path'])
+    if not cand:
+        return F.outcomes
+    from engine import Engine, POLL
+    conv = {}
+    for fn in F.raw['fns']:
+        if fn['kind'] == 'closure' or fn['arg_count'] != 1:
+            continue
+        t1 = fn['locals'][1]['ty']
+        if t1.get('k') == 'adt' and t1.get('path') in cand and _is_pollish(fn['locals'][0]['ty']):
+            conv.setdefault(t1['path'], []).append(fn['path'])
+    out_conv = {e: fs[0] for e, fs in conv.items() if len(fs) == 1}
+    E = Engine(F)
+    seen = {}
+    for g in F.raw['fns']:
+        if g['kind'] == 'closure' or not _is_pollish(g['locals'][0]['ty']):
+            continue
+        # only functions that call something returning a candidate enum
+        if not any(((F.fn(rp) or {}).get('locals') or [{}])[0].get('ty', {}).get('path') in cand
+                   for rp in CG.reachable_from([g['path']])):
+            continue
+        saved = set(F.alias_fns)
+        F.alias_fns.discard(g['path'])
+        try:
+            paths = E.run(g['path'])
+        finally:
+            F.alias_fns.update(saved)
+        for path in paths:
+            if path.exit != 'return':
+                continue
+            v = path.ret
+            if v[0] == 'tuple' and v[1]:
+                v = v[1][0]
+            pv = v[2] if v[0] == 'agg' and v[1] == POLL else None
+            if pv is None:
+                k = E.variant_known(path.facts, v)
+                pv = k[1] if k and k[0] == 'eq' else None
+            if pv not in ('Ready', 'Pending'):
+                continue
+            inner = None
+            if pv == 'Ready' and v[0] == 'agg' and v[3]:
+                x = v[3][0][1]
+                if x[0] == 'agg' and x[1] in ('std::option::Option', 'std::result::Result'):
+                    inner = (x[1], x[2])
+            last = None
+            for e in path.events:
+                if e['k'] == 'ret' and e.get('ret') is not None and e['ret'][0] == 'agg' and e['ret'][1] in cand:
+                    last = e['ret']
+            if last is not None:
+                seen.setdefault((last[1], last[2]), set()).add((pv, inner))
+    F.outcomes = {'conv': out_conv, 'shape': {k: list(v)[0] for k, v in seen.items() if len(v) == 1}}
+    return F.outcomes
+
+
+def _locks_directly(fn):
+    return any(b['term']['k'] == 'call' and 'fn' in b['term']['func'] and
+               b['term']['func']['fn']['path'].startswith('lock_api::') and
+               b['term']['func']['fn']['name'] == 'lock' for b in fn['blocks'] if not b['cleanup'])
+
+
+def reaches_lock(F, CG, fn):
+    """does the function take the internal lock - itself, in a helper it calls or in a closure it passes on?"""
+    cache = F.__dict__.setdefault('_reaches_lock', {})
+    p = fn['path']
+    if p not in cache:
+        cache[p] = any(_locks_directly(F.fn(q)) for q in CG.reachable_from([p]) if F.fn(q) is not None)
+    return cache[p]
 
 
 # ------------------------------------------------------------ path queries
